@@ -127,6 +127,7 @@ def expected(chroms, only_snvs, selected):
                 union += b - end
                 end = b
         r["_union"] = union
+        r["_sizes"] = [len(m) for m in sets.values() if len(m) > 1]
         rows[name] = r
     return rows, blocklist, gtf
 
@@ -182,6 +183,22 @@ def judge(inst):
             viols.append(V("identity", f"{name}: phased+unphased+singletons != heterozygous: {g}"))
         if int(g["variant_per_block_sum"]) != int(g["phased"]):
             viols.append(V("identity", f"{name}: sum of block sizes {g['variant_per_block_sum']} != phased {g['phased']}"))
+        sizes = sorted(r["_sizes"])
+        if sizes:
+            med = (sizes[(len(sizes) - 1) // 2] + sizes[len(sizes) // 2]) / 2
+            for col, want in (("variant_per_block_avg", sum(sizes) / len(sizes)), ("variant_per_block_min", sizes[0]), ("variant_per_block_max", sizes[-1]), ("variant_per_block_median", med)):
+                if abs(float(g[col]) - want) > 1e-6:
+                    viols.append(V("size-stats", f"{name}: {col} reported {g[col]}, the phase sets have sizes {sizes}"))
+            # block lengths are taken over non-overlapping pieces: whatever the pieces are, minimum <= median,
+            # average <= maximum <= sum, and the average is the sum divided by a whole number of pieces
+            bmin, bmed, bavg, bmax, bsum = (float(g["bp_per_block_" + k]) for k in ("min", "median", "avg", "max", "sum"))
+            eps = 1e-6
+            if not (bmin - eps <= bmed <= bmax + eps and bmin - eps <= bavg <= bmax + eps and bmax <= bsum + eps):
+                viols.append(V("length-stats", f"{name}: block length statistics are inconsistent: min {bmin} median {bmed} avg {bavg} max {bmax} sum {bsum}"))
+            elif bavg > 0:
+                npieces = bsum / bavg
+                if abs(npieces - round(npieces)) > 1e-6 or round(npieces) < 1:
+                    viols.append(V("length-stats", f"{name}: average block length {bavg} is not the sum {bsum} divided by a number of pieces"))
         if int(float(g["bp_per_block_sum"])) > r["_union"]:
             viols.append(V("span", f"{name}: sum of block lengths {g['bp_per_block_sum']} exceeds the covered span {r['_union']} (kinds {dict(chroms)[name]})"))
     if len(rows) > 1 or (not selected and len(chroms) > 1):
@@ -238,6 +255,11 @@ def space(tier):
                 yield ([("chr1", list(s1)), ("chr2", list(s2))], "PS", False, sel, False)
     for s1 in seqs:
         yield ([("chr1", list(s1))], "PS", False, None, True)
+    # interleaved / nested phase sets on two chromosomes (ALL row of the block-length columns)
+    inter = [s for n in (4, 5) for s in itertools.product(["A0|1", "B0|1", "0/1"] if n == 4 else ["A0|1", "B0|1"], repeat=n) if s[0] == "A0|1" and s.count("A0|1") >= 2 and s.count("B0|1") >= 2]
+    for s1 in inter:
+        for s2 in inter[:: 1 if T else 5] + [("A0|1", "A0|1")]:
+            yield ([("chr1", list(s1)), ("chr2", list(s2))], "PS", False, None, False)
 
 
 def run_one(inst):
